@@ -41,6 +41,11 @@ type OpSpec struct {
 	// (a lookup table loaded lazily). Only engines with a simulated clock make
 	// it slow; its result is the same.
 	SlowFirst bool `json:"slow_first,omitempty"`
+	// Var: for Kind "probe" — the variable this operator looks up by itself (in
+	// the caller's store, not through an operand): it yields that variable's
+	// value, or DNE when the store says the variable is not available yet (what
+	// an operator wrapping a sub-rule's TryEval hands back).
+	Var string `json:"var,omitempty"`
 }
 
 const (
@@ -333,6 +338,15 @@ func (e *Env) CallOp(name string, args []interface{}) (interface{}, error) {
 		}
 		e.counts[name]++
 		c.Res = e.counts[name]
+	case spec.Kind == "probe":
+		if e.unavail[spec.Var] {
+			c.Res = eval.DNE
+		} else if v, ok := e.bind[spec.Var]; ok {
+			c.Res = v
+		} else {
+			c.Err = &SimErr{Site: site, Kind: "op_error", What: name}
+			e.Fired["op_error"]++
+		}
 	case spec.Kind == "tuple":
 		c.Res = CopyVals(args) // the operator's value is the list of its arguments
 	case spec.Kind == "now":
